@@ -13,6 +13,7 @@ HELPERS = '''    reveal() {      # pure bash (process creation is the bottleneck
             pushd "$d" > /dev/null
             for f in **/*; do
                 [ -f "$f" ] || continue
+                case "$f" in *.tar) echo "== ./$f (archive)"; continue;; esac
                 echo "== ./$f"
                 while IFS= read -r line || [ -n "$line" ]; do echo "$line"; done < "$f"
             done
@@ -20,9 +21,9 @@ HELPERS = '''    reveal() {      # pure bash (process creation is the bottleneck
         done
     }
     vlog() { echo "$1" >> "$VERIF_LOG"; }
-    fault() {   # fault <step>: driven by marker files, so recipe text and ids never change
-        if [ -n "${VERIF_MARK:-}" ] && [ -e "$VERIF_MARK/fail-$1" ]; then echo partial > result.txt; exit 1; fi
-        if [ -n "${VERIF_MARK:-}" ] && [ -e "$VERIF_MARK/kill-$1" ]; then echo partial > result.txt; kill -9 $PPID; sleep 2; fi
+    fault() {   # fault <step> [file]: driven by marker files, so recipe text and ids never change
+        if [ -n "${VERIF_MARK:-}" ] && [ -e "$VERIF_MARK/fail-$1" ]; then echo partial > "${2:-result.txt}"; exit 1; fi
+        if [ -n "${VERIF_MARK:-}" ] && [ -e "$VERIF_MARK/kill-$1" ]; then echo partial > "${2:-result.txt}"; kill -9 $PPID; sleep 2; fi
     }
 '''
 
@@ -51,7 +52,7 @@ def files(v):
     f['recipes/lib.yaml'] = ('inherit: [base, cls]\n'
                              'checkoutSCM:\n    scm: import\n    url: src/lib\n'
                              'checkoutDeterministic: True\n'
-                             'checkoutScript: |\n    vlog "lib checkout"\n    echo generated%s > generated.txt\n'
+                             'checkoutScript: |\n    vlog "lib checkout"\n    fault lib-checkout generated.txt\n    echo generated%s > generated.txt\n'
                              'metaEnvironment:\n    LICENSE: "MIT"\n'
                              'buildVars: [%s]\n'
                              'buildTools: [gen]\n'
@@ -68,12 +69,15 @@ def files(v):
     import hashlib
     data = 'download-data-v%d\n' % v['urlsrc']
     f['recipes/dl.yaml'] = ('inherit: [base]\n'
-                            'checkoutSCM:\n    scm: url\n    url: "file://${DLDIR}/data%d.txt"\n    digestSHA256: "%s"\n    extract: False\n'
+                            'checkoutSCM:\n'
+                            '    - scm: url\n      url: "file://${DLDIR}/data%d.txt"\n      digestSHA256: "%s"\n      extract: False\n'
+                            '    - scm: url\n      url: "file://${DLDIR}/arch%d.tar"\n      digestSHA256: "%s"\n      dir: ar\n'
                             'buildScript: |\n    vlog "dl build"\n    { echo dl-build; reveal "$1"; } > result.txt\n'
                             'packageScript: |\n    vlog "dl package"\n    { echo dl-pkg; reveal "$1"; } > result.txt\n') % (
-                                v['urlsrc'], hashlib.sha256(data.encode()).hexdigest())
+                                v['urlsrc'], hashlib.sha256(data.encode()).hexdigest(),
+                                v['urlsrc'], hashlib.sha256(archive_bytes(v['urlsrc'])).hexdigest())
     f['recipes/lib2.yaml'] = ('inherit: [base]\ndepends: [dl]\ncheckoutDeterministic: True\n'
-                              'checkoutScript: |\n    vlog "lib2 checkout"\n    echo lib2-src%s > s.txt\n'
+                              'checkoutScript: |\n    vlog "lib2 checkout"\n    fault lib2-checkout s.txt\n    echo lib2-src%s > s.txt\n'
                               'buildVars: [ENVV]\n'
                               'buildScript: |\n    vlog "lib2 build"\n    { echo "lib2-build ENVV=${ENVV:-} nonce=${VERIF_NONCE:-}"; reveal "$@"; } > result.txt\n'
                               'packageScript: |\n    vlog "lib2 package"\n    { echo lib2-pkg; reveal "$1"; } > result.txt\n') % ('-v1' if v['coscript'] else '')
@@ -110,3 +114,23 @@ def downloads(dldir, missing=()):
             if os.path.exists(p): os.unlink(p)
         else:
             with open(p, 'w') as f: f.write('download-data-v%d\n' % k)
+        p = os.path.join(dldir, 'arch%d.tar' % k)
+        if k in missing:
+            if os.path.exists(p): os.unlink(p)
+        else:
+            with open(p, 'wb') as f: f.write(archive_bytes(k))
+
+
+ARCHIVE_MEMBERS = ['one.txt', 'sub/three.txt', 'two.txt']
+
+
+def archive_bytes(k):
+    """deterministic tar archive (fixed mtimes/owners) that the url SCM extracts into ar/"""
+    import tarfile, io
+    bio = io.BytesIO()
+    with tarfile.open(fileobj=bio, mode='w', format=tarfile.GNU_FORMAT) as t:
+        for n in ARCHIVE_MEMBERS:
+            data = ('arch-v%d-%s\n' % (k, n)).encode()
+            ti = tarfile.TarInfo(n); ti.size = len(data); ti.mtime = 1_500_000_000; ti.mode = 0o644
+            t.addfile(ti, io.BytesIO(data))
+    return bio.getvalue()
